@@ -88,8 +88,8 @@ h!(c04_el_contract, 70, input_offsets(Input::contract(utxo(), Bytes32::from(b32(
 h!(c04_el_message_coin_signed, 70, input_offsets(Input::message_coin_signed(addr(), addr(), kani::any(), Nonce::from(b32()), kani::any())));
 h!(c04_el_message_coin_predicate_l7_l1, 70, input_offsets(Input::message_coin_predicate(addr(), addr(), kani::any(), Nonce::from(b32()), kani::any(), bytes::<7>(), bytes::<1>())));
 h!(c04_el_message_data_signed_l9, 70, input_offsets(Input::message_data_signed(addr(), addr(), kani::any(), Nonce::from(b32()), kani::any(), bytes::<9>())));
-h!(c04_el_message_data_predicate_l1_l9_l2, 70, input_offsets(Input::message_data_predicate(addr(), addr(), kani::any(), Nonce::from(b32()), kani::any(), bytes::<1>(), bytes::<9>(), bytes::<2>())));
-h!(c04_el_message_data_predicate_l8_l3_l0, 70, input_offsets(Input::message_data_predicate(addr(), addr(), kani::any(), Nonce::from(b32()), kani::any(), bytes::<8>(), bytes::<3>(), bytes::<0>())));
+h!(c04_el_message_data_predicate_l1_l2_l1, 70, input_offsets(Input::message_data_predicate(addr(), addr(), kani::any(), Nonce::from(b32()), kani::any(), bytes::<1>(), bytes::<2>(), bytes::<1>())));
+h!(c04_el_message_data_predicate_l8_l1_l0, 70, input_offsets(Input::message_data_predicate(addr(), addr(), kani::any(), Nonce::from(b32()), kani::any(), bytes::<8>(), bytes::<1>(), bytes::<0>())));
 
 fn output_offsets(o: Output) {
     let b = o.to_bytes();
@@ -128,7 +128,7 @@ macro_rules! th {
 fn script_offsets<const SL: usize, const DL: usize, const NW: usize>(ins: Vec<Input>, outs: Vec<Output>, precompute: bool) {
     use fuel_tx::policies::PolicyType;
     let mut pol = Policies::new();
-    if kani::any() { pol.set(PolicyType::Tip, Some(kani::any())); }
+    pol.set(PolicyType::Tip, Some(kani::any())); // the policy SET is a harness constant (it fixes every later offset)
     pol.set(PolicyType::MaxFee, Some(kani::any()));
     let mut wits = Vec::with_capacity(NW);
     let mut k = 0;
@@ -143,7 +143,8 @@ fn script_offsets<const SL: usize, const DL: usize, const NW: usize>(ins: Vec<In
     assert!(at(&b, Some(tx.receipts_root_offset()), tx.receipts_root().as_ref()));
     assert!(at(&b, Some(tx.script_offset()), tx.script()));
     assert!(at(&b, Some(tx.script_data_offset()), tx.script_data()));
-    assert!(at(&b, Some(tx.policies_offset()), &tx.policies().to_bytes()));
+    // the policy *values* (dynamic part) live at policies_offset; the bit mask is part of the static body
+    assert!(at(&b, Some(tx.policies_offset()), &tx.policies().to_bytes()[8..]));
     let n_in = tx.inputs().len();
     let mut i = 0;
     while i < n_in {
